@@ -1120,7 +1120,7 @@ func secondRunTermios(out *scenOut) {
 		case <-done:
 			return true
 		case <-time.After(5 * time.Second):
-			p.Kill()
+			go p.Kill()
 			return false
 		}
 	}
